@@ -684,7 +684,7 @@ def lookalike_cases(ctx, upper_seen):
 def component_boundary_cases(upper_seen):
     """boundary values (00, 01, max, max+1, 99) of every numeric component of the date / time / MonthYear forms,
     component-wise around valid bases and pairwise for year/month/day; week codes w0..w6"""
-    years = ["0000", "0001", "1900", "2000", "2023", "2024", "9999"]
+    years = ["0000", "0001", "0004", "0100", "0400", "1900", "2000", "2023", "2024", "2100", "2400", "9999"]
     months = ["00", "01", "02", "04", "12", "13", "99"]
     days = ["00", "01", "28", "29", "30", "31", "32", "99"]
     hours = ["00", "23", "24", "99"]
@@ -697,6 +697,9 @@ def component_boundary_cases(upper_seen):
     times += [h + ":" + m + ":" + x for h in ("00", "23", "24") for m in ("00", "59", "60") for x in ("00", "59", "60")]
     times = [t + f for t in times for f in fracs[:1]] + ["12:30:30" + f for f in fracs] + ["23:59:60" + f for f in fracs[:6]]
     stamps = [d + "-" + t for d in ("20240229", "20230229", "00000101", "99991231", "20231301", "20230100") for t in times[:40]]
+    # the calendar pool for every date-bearing type: Feb 29 in century years, Feb 30, month 00 / 13, day 00 / 32
+    cal = [y + "0229" for y in ("1900", "2000", "2100", "2400", "2023", "2024", "0004", "0100")] + ["20240230", "20230001", "20231301", "20230100", "20230132", "20230431", "20230631"]
+    stamps += [d + "-" + t for d in cal for t in ("00:00:00", "23:59:59.999", "12:30:30.123456")]
     stamps += [d + "-12:30:30" for d in dates[::3]]
     monthyears = [y + m for y in years for m in months] + [y + m + w for y in ("0000", "2023", "9999") for m in months for w in weeks] + dates[::2]
     out = []
@@ -740,6 +743,55 @@ def history_scenarios(ctx, types):
         sc.append([["new", 0, a, "1", []], ["new", 1, b, "1", []], ["validate", 0, "5"], ["validate", 1, "5"], ["validate", 0, "Y"], ["validate", 1, "Y"],
                    ["set", 0, "values", ["1"]], ["share_values", 0, 1], ["validate", 1, "1"], ["validate", 1, "5"], ["values_add", 0, "5"],
                    ["validate", 1, "5"], ["validate", 0, "5"]])
+    return sc
+
+
+DATE_PARTS = ["20230921", "20240229", "20230229", "19000229", "202309 1", "2023921", "２０２３0921", "2023092１", "00000921", "20231301"]
+TIME_PARTS = ["14:00:00", "23:59:59.123", "1:2:3", "24:00:00", "14:00:60", "14:00:00.123456"]
+SHARED_POOLS = {
+    "UTCTIMESTAMP": [d + "-" + t for d in DATE_PARTS for t in TIME_PARTS[:4]],
+    "UTCTIMEONLY": TIME_PARTS + ["14:00:0", "14:00:00.1", "14:0０:00", "14:00"],
+    "LOCALMKTDATE": DATE_PARTS + ["2023092", "202309211"],
+    "UTCDATEONLY": DATE_PARTS + ["2023092", "202309211"],
+    "MONTHYEAR": ["202309", "202309w1", "202300w1", "202309w6", "20230921", "202309 1", "２０２３09", "000009", "2023091", "202313"],
+    "INT": ["12", "12 ", "1_2", "+12", "１２", "12.0", "-12", "012", "1e2"],
+    "FLOAT": ["1.5", "1.5e3", "1.5 ", "+1.5", "１.5", "1.5.", "15e-1", "1e-05", "1e+16", "-1.5"],
+    "STRING": ["ab", "a=b", "ab\x01", "a", "abc"],
+    "BOOLEAN": ["Y", "N", "y", "YN", " Y"],
+    "COUNTRY": ["US", "U_", "U\u212a", "us", "USA", "U"],
+}
+SHARED_LIKE = {"SEQNUM": "INT", "NUMINGROUP": "INT", "DAYOFMONTH": "INT", "LENGTH": "INT", "QTY": "FLOAT", "PRICE": "FLOAT", "PRICEOFFSET": "FLOAT",
+               "AMT": "FLOAT", "PERCENTAGE": "FLOAT", "CHAR": "STRING", "MULTIPLEVALUESTRING": "STRING", "MULTIPLESTRINGVALUE": "STRING", "DATA": "STRING",
+               "CURRENCY": "COUNTRY", "EXCHANGE": "COUNTRY"}
+
+
+def shared_component_histories(ctx, types):
+    """2-3 validations of DIFFERENT values that share a prefix / suffix / component (bad date + any time then the same
+    bad date + a valid time; a member then a near-miss with the same first n characters; the same near-miss two and
+    three times) on one field object and across two field objects (module-level state)"""
+    ts = sorted({t.upper() for t in types})
+    sc = []
+    for t in ts:
+        pool = SHARED_POOLS.get(t) or SHARED_POOLS.get(SHARED_LIKE.get(t, ""), [])
+        if not pool:
+            continue
+        pairs = [(a, b) for a in pool for b in pool]
+        if ctx.tier != "thorough" and len(pairs) > 100:
+            # keep every pair that shares its first component, sample the rest
+            share = [(a, b) for (a, b) in pairs if a != b and (a[:8] == b[:8] or a[-8:] == b[-8:])]
+            sset = set(share)
+            rest = [p for p in pairs if p not in sset]
+            pairs = share[:120] + ctx.rng.sample(rest, min(len(rest), 30))
+        other = "UTCTIMESTAMP" if t != "UTCTIMESTAMP" and t in ("LOCALMKTDATE", "UTCDATEONLY", "UTCTIMEONLY", "MONTHYEAR") else t
+        for a, b in pairs:
+            sc.append([["new", 0, t, "1", []], ["validate", 0, a], ["validate", 0, b], ["validate", 0, b], ["validate", 0, a]])
+            sc.append([["new", 0, t, "1", []], ["new", 1, t, "1", []], ["validate", 0, a], ["validate", 1, b], ["validate", 0, b]])
+        for a in pool:
+            sc.append([["new", 0, t, "1", []], ["validate", 0, a], ["validate", 0, a], ["validate", 0, a]])
+            if other != t and other in ts:
+                # the same component travels through a field of another date-bearing type first
+                for b in SHARED_POOLS[other][:8]:
+                    sc.append([["new", 0, other, "1", []], ["new", 1, t, "1", []], ["validate", 0, b], ["validate", 1, a], ["validate", 0, b]])
     return sc
 
 
@@ -864,11 +916,11 @@ def typed_cases(ctx, types, maxdigits):
         by_fmt[name.split(":")[0]] = by_fmt.get(name.split(":")[0], 0) + 1
         seen_str.setdefault(v, name)
     pf_strings = sorted(seen_str)
-    if ctx.tier != "thorough" and len(pf_strings) > 1600:
+    if ctx.tier != "thorough" and len(pf_strings) > 1100:
         keep = [v for v in pf_strings if seen_str[v].split(":")[1] in ("str", "repr", "isoformat", "%g", "%e")]
         kset = set(keep)
         rest = [v for v in pf_strings if v not in kset]
-        pf_strings = sorted(set(keep[:900] + ctx.rng.sample(rest, max(0, 1600 - min(len(keep), 900)))))
+        pf_strings = sorted(set(keep[:700] + ctx.rng.sample(rest, max(0, 1100 - min(len(keep), 700)))))
     for v in pf_strings:
         for t in sorted(upper_seen):
             cases.append((t, "1", (), v))
@@ -1098,6 +1150,10 @@ def correspondence(ctx):
     # 2b. histories on SchemaField objects: the model is stateless, so every validate step must equal the model on
     #     the attributes the object has at that moment
     hist = history_scenarios(ctx, types)
+    shared = shared_component_histories(ctx, types)
+    distribution["history:shared-component scenarios"] = len(shared)
+    distribution["history:shared-component scenarios across two field objects"] = sum(1 for ops in shared if sum(1 for o in ops if o[0] == "new") == 2)
+    hist = hist + shared
     hsteps, hlines = [], []
     for hi, ops in enumerate(hist):
         for k, (ft, tag, es), v, got in run_history(ops):
@@ -1124,8 +1180,8 @@ def correspondence(ctx):
         if out[len(values) + i] != py_float(v):
             dis.append({"input": {"float()": v}, "model": out[len(values) + i], "impl": py_float(v), "level": "primitive"})
     dvals = sorted({c[3] for c in typed if isinstance(c[3], str) and c[0].upper() in DT_TYPES})
-    if ctx.tier != "thorough" and len(dvals) > 20000:
-        dvals = ctx.rng.sample(dvals, 20000)
+    if ctx.tier != "thorough" and len(dvals) > 12000:
+        dvals = ctx.rng.sample(dvals, 12000)
     lines = [f"lex.strp {f} {enc(v)}" for v in dvals for f in FMT]
     out = drv.batch(lines)
     k = 0
